@@ -4,6 +4,8 @@ import Hive.Proofs.C12bTimeHeap
 import Hive.Proofs.C12bIndexedStorage
 import Hive.Proofs.C12bOnChangeMap
 import Hive.Proofs.C12bSubMgrMirror
+import Hive.Gen.C12b_Src
+import Hive.Spec.C12bSource
 /-!
 # C12 (part B) — BytesFilter, Walker, TimeHeap, IndexedStorage, OnChangeMap, SubscriptionManager
 are equivalent to their abstract models
@@ -328,5 +330,24 @@ theorem C12_submgr_old_limit_path_witness :
     let s := (SM.subscribeOld s0 2 3).1
     SM.cnt s 1 3 = 1 ∧ SM.topicCount s 3 = 0 := by
   decide
+
+/-! ## The source text the models were written against
+
+`Hive/Gen/C12b_Src.lean` is regenerated from the working tree on every run (`harness/c12b/srcpin`): every
+declaration of the modelled files — functions, struct layouts (field types and widths), constants and
+default values, error values — as printed text.  `Hive/Spec/C12bSource.lean` is the text the models in
+`Hive/Model/C12b*.lean` were written (and validated) against.  Any edit of the modelled code breaks one of
+these obligations; the check then names the declaration and the differing lines, and the differential run
+and the Go oracles search for a failing input. -/
+
+theorem C12_source_bytesfilter : Hive.Gen.C12bSrc.src_bytesfilter = Source.pinned_bytesfilter := rfl
+theorem C12_source_walker : Hive.Gen.C12bSrc.src_walker = Source.pinned_walker := rfl
+/-- `Walker` keeps its pushed set in an `OrderedMap`: `Set` keeps the position of a known key and reports it. -/
+theorem C12_source_orderedmap : Hive.Gen.C12bSrc.src_orderedmap = Source.pinned_orderedmap := rfl
+theorem C12_source_timeheap : Hive.Gen.C12bSrc.src_timeheap = Source.pinned_timeheap := rfl
+theorem C12_source_indexedstorage : Hive.Gen.C12bSrc.src_memstorage = Source.pinned_memstorage := rfl
+theorem C12_source_onchangemap : Hive.Gen.C12bSrc.src_onchangemap = Source.pinned_onchangemap := rfl
+theorem C12_source_subscriptionmanager :
+    Hive.Gen.C12bSrc.src_subscriptionmanager = Source.pinned_subscriptionmanager := rfl
 
 end Hive.C12b
